@@ -1,6 +1,8 @@
 /-
   Model of pgdump/catalog.go: the fixed catalog schemas (taken from the generated tables — the model has
-  no copy), ParsePGDatabase, ParsePGClass, ParsePGAttribute, detectAttrSchema, getOID, getString, toInt.
+  no copy), ParsePGDatabase, ParsePGClass, ParsePGAttribute, readAttrRows (the tree after fixes/cluster/08:
+  pg_attribute is read through the three real layouts of dropped.go, chosen by the version hint or, without
+  one, by dropped.go's readAttrRowsWithDropped), getOID, getString, toInt.
 
   Everything is parametric in the row reader `rr` (heap.go:ReadRows, area `rows`): the functions here are
   the catalog logic ON TOP OF any row reader.  A row is an association list column name ↦ GoVal; by the
@@ -45,8 +47,12 @@ def mkSchema (s : List (String × Nat × Int)) : List Column :=
 
 def schemaPGDatabase : List Column := mkSchema Generated.Cluster.schemaPGDatabase
 def schemaPGClass : List Column := mkSchema Generated.Cluster.schemaPGClass
-def schemaPGAttrV15 : List Column := mkSchema Generated.Cluster.schemaPGAttrV15
-def schemaPGAttrV16 : List Column := mkSchema Generated.Cluster.schemaPGAttrV16
+/-- dropped.go:schemaPGAttrDropped (PostgreSQL 16), …V15 (14–15), …V12 (12–13): the three real pg_attribute layouts up
+to attisdropped, as catalog.go:readAttrRows uses them (Model/Dropped.lean has the same three lists from its own
+generated table; `Proofs.Cluster.catSchemas_eq_dropped` ties the two) -/
+def catSchemaAttr16 : List Column := mkSchema Generated.Cluster.schemaPGAttrDropped
+def catSchemaAttr14 : List Column := mkSchema Generated.Cluster.schemaPGAttrDroppedV15
+def catSchemaAttr12 : List Column := mkSchema Generated.Cluster.schemaPGAttrDroppedV12
 
 /-- catalog.go:getOID — `row[key].(uint32)` or 0 -/
 def getOID (row : Row) (key : String) : Nat :=
@@ -94,17 +100,38 @@ def parsePGClass (rr : RowReader) (data : Bytes) : M (List (Nat × TableInfo)) :
   let rows ← rr data schemaPGClass true
   pure (rows.foldl classStep [])
 
-/-- the loop `for i := 0; i < 5; i++ { if toInt(rows[i]["attnum"]) != i+1 … }` over the first five rows -/
-def firstFiveMatch (rows : List Row) : Bool :=
-  ((rows.take 5).zipIdx.all fun (row, i) => getInt row "attnum" == (i : Int) + 1)
+/-- `len(s) == 1 && strings.Contains(set, s)` for a set of distinct ASCII letters -/
+def catOneOfBytes (set : List UInt8) (s : Bytes) : Bool :=
+  match s with
+  | [b] => set.contains b
+  | _ => false
 
-/-- catalog.go:detectAttrSchema -/
-def detectAttrSchema (rr : RowReader) (data : Bytes) (version : Int) : M (List Column) :=
-  if version ≥ 16 then pure schemaPGAttrV16
-  else if version ≥ 12 then pure schemaPGAttrV15
-  else do
-    let rows ← rr data schemaPGAttrV16 true
-    if rows.length ≥ 5 ∧ firstFiveMatch rows then pure schemaPGAttrV16 else pure schemaPGAttrV15
+/-- dropped.go:plausibleAttrRow — attalign in "csid" and attstorage in "pemx" -/
+def catPlausibleAttrRow (row : Row) : Bool :=
+  catOneOfBytes [99, 115, 105, 100] (getString row "attalign") &&
+  catOneOfBytes [112, 101, 109, 120] (getString row "attstorage")
+
+def catAttrScore (rows : List Row) : Nat := (rows.filter catPlausibleAttrRow).length
+
+/-- one turn of the loop of readAttrRowsWithDropped: `if score > bestScore { best, bestScore = rows, score }` -/
+def catBetterRows (best : List Row × Nat) (rows : List Row) : List Row × Nat :=
+  if catAttrScore rows > best.2 then (rows, catAttrScore rows) else best
+
+/-- dropped.go:readAttrRowsWithDropped — the rows under the layout (16, 14–15, 12–13) with the most rows carrying a legal
+attalign/attstorage pair; the first such layout on a tie, no rows when no layout has any (the same function as
+`Model.readAttrRowsWithDropped` of Model/Dropped.lean) -/
+def catReadAttrRowsAuto (rr : RowReader) (data : Bytes) : M (List Row) := do
+  let r16 ← rr data catSchemaAttr16 true
+  let r15 ← rr data catSchemaAttr14 true
+  let r12 ← rr data catSchemaAttr12 true
+  pure (catBetterRows (catBetterRows (catBetterRows ([], 0) r16) r15) r12).1
+
+/-- catalog.go:readAttrRows (fixes/cluster/08) — the layout of the hinted version, or the automatic choice -/
+def readAttrRows (rr : RowReader) (data : Bytes) (version : Int) : M (List Row) :=
+  if version ≥ 16 then rr data catSchemaAttr16 true
+  else if version ≥ 14 then rr data catSchemaAttr14 true
+  else if version ≥ 12 then rr data catSchemaAttr12 true
+  else catReadAttrRowsAuto rr data
 
 /-- Go: `result[relid] = append(result[relid], a)` -/
 def mapAppend {β} (m : List (Nat × List β)) (k : Nat) (v : β) : List (Nat × List β) :=
@@ -133,8 +160,7 @@ def sortByNum (as : List AttrInfo) : List AttrInfo := as.foldr insertByNum []
 /-- catalog.go:ParsePGAttribute — map relation oid ↦ attributes with attnum > 0 sorted by attnum.
 The final `for relid := range result { sort … }` sorts every entry in place: independent of the order -/
 def parsePGAttribute (rr : RowReader) (data : Bytes) (pgVersion : Int) : M (List (Nat × List AttrInfo)) := do
-  let schema ← detectAttrSchema rr data pgVersion
-  let rows ← rr data schema true
+  let rows ← readAttrRows rr data pgVersion
   pure ((rows.foldl attrStep []).map fun (k, as) => (k, sortByNum as))
 
 end PgVerif.Model
